@@ -92,10 +92,15 @@ func vshape(n *vnode) (s string) {
 		// name-collision case `where-over-summarize`, which stays a regression
 		return "where-over-wholerow-summarize"
 	}
+	if len(n.kids) == 2 && (vhasWhole(n.kids[0]) || vhasWhole(n.kids[1])) {
+		// a two-source operator that reads a whole-row summarize through Select/Lookup
+		return "select-into-wholerow-summarize"
+	}
 	s = n.kind()
 	defer func() {
-		if n.op == "where" && vinEmpty(n.expr) {
-			// an in-list with '' among its values (its index point is a prefix of the others)
+		if vsubInEmpty(n) {
+			// an in-list with '' among its values somewhere below (its index point is a prefix
+			// of the other values' points: rows come twice)
 			s += "+in-empty"
 		}
 	}()
@@ -197,11 +202,6 @@ func (g *vdb) checkC22(tr *lib.Trace, q *vnode, seed uint64) {
 				gotS = got2.show(&g.ids)
 			}
 			sig := "aswritten-" + kind2 + ":" + vshape(m)
-			if kind2 == "rows" && len(m.kids) == 2 && (vhasWhole(m.kids[0]) || vhasWhole(m.kids[1])) {
-				// a join/leftjoin/… whose operands are right on their own but which reads a
-				// whole-row summarize through Select/Lookup
-				sig = "aswritten-rows:select-into-wholerow-summarize"
-			}
 			if kind2 == "error" && got2 != nil {
 				// one signature per kind of failure, whatever operator it shows under
 				sig = "aswritten-error:" + verrSig(got2.err)
@@ -230,6 +230,18 @@ func vinEmpty(e *vexpr) bool {
 	return false
 }
 
+func vsubInEmpty(n *vnode) bool {
+	if n.op == "where" && vinEmpty(n.expr) {
+		return true
+	}
+	for _, k := range n.kids {
+		if vsubInEmpty(k) {
+			return true
+		}
+	}
+	return false
+}
+
 func vhasWhole(n *vnode) bool {
 	if n.op == "summarize" && n.whole {
 		return true
@@ -248,6 +260,8 @@ func verrSig(err string) string {
 		return "math-on-string-literal"
 	case strings.Contains(err, "ASSERT FAILED"):
 		return "assert-failed"
+	case strings.Contains(err, "Sels.Get can't find"):
+		return "sels-get-missing-column"
 	case strings.Contains(err, "invalid"):
 		return "invalid-query"
 	}
@@ -343,7 +357,13 @@ func (g *vdb) setopOracle(tr *lib.Trace, n *vnode, seed uint64) {
 	}
 	tr.Count("setop-oracle=" + n.op)
 	if got, exp := strings.Join(whole.rows, ";"), strings.Join(proj(want), ";"); got != exp {
-		tr.Fail("setop-vs-sources:"+n.op, "db: "+g.describe()+" query: "+n.src()+" | executes: "+vtrunc(plan, 300)+
+		sig := "setop-vs-sources:" + n.op
+		if vhasWhole(n) {
+			sig = "aswritten-rows:select-into-wholerow-summarize"
+		} else if vsubInEmpty(n) {
+			sig += "+in-empty"
+		}
+		tr.Fail(sig, "db: "+g.describe()+" query: "+n.src()+" | executes: "+vtrunc(plan, 300)+
 			" | the operation on the separately executed sources: "+vtrunc(exp, 300)+" | executed: "+vtrunc(got, 300))
 	}
 }
@@ -382,6 +402,19 @@ func vtypeName(q Query) string {
 }
 
 func vqshape(q Query) string {
+	if w, ok := q.(*Where); ok {
+		// a restriction above a whole-row min/max (through single-source operators)
+		for src := w.source; src != nil; {
+			if su, ok := src.(*Summarize); ok && su.wholeRow {
+				return "where-over-wholerow-summarize"
+			}
+			q1, ok := src.(q1i)
+			if !ok {
+				break
+			}
+			src = q1.Source()
+		}
+	}
 	s := vtypeName(q)
 	switch q := q.(type) {
 	case q2i:
@@ -405,6 +438,16 @@ func vC22AsWritten(t *testing.T, tr *lib.Trace, r *rand.Rand, n int) {
 			qS := fuzzRandom(ftS)
 			before = String(qS)
 			shape = vqshape(qS)
+			if p, ok := qS.(*Project); ok {
+				// a projected rule column whose dependency is not projected (the rule reads ""
+				// once the project is moved towards the table)
+				for _, c := range p.columns {
+					if dep, ok := ftS.ruleDeps[c]; ok && !vhasStr(p.columns, dep) {
+						shape += "+rulecol"
+						break
+					}
+				}
+			}
 			tr.Count("own-top=" + vtypeName(qS))
 			th := &Thread{}
 			qS.SetTran(ftS.rt)
